@@ -48,6 +48,23 @@ def sample(rng, region):
             return y
 
 
+def edge_points(region):
+    """deterministic points at and next to the ends of a region: the closed ends themselves (0 belongs to the regions of
+    non-negative arguments, c0 to the outer Bergstrom-Boyce pieces: `|y| < c0` selects the inner one) and points at a
+    relative distance 2^-40 inside each end — a threshold or a comparison (< vs <=) that is slightly off changes the
+    branch taken there although it does not at the seeded interior points"""
+    lo, hi = REGIONS[region]
+    eps = (hi - lo) / 2 ** 40
+    pts = [lo + eps, hi - eps]
+    if region in ("pos", "lopos"):
+        pts.append(F(0))
+    if region == "hipos":
+        pts.append(C0)
+    if region == "hineg":
+        pts.append(-C0)
+    return pts
+
+
 def reference(name, y):
     """expected outputs [f] or [f, df] of a unit at y (exact); oddness is built in: negative regions are
     -f(-y), f'(-y) of the positive formula"""
@@ -157,8 +174,7 @@ def run(ck):
         return t == r
     for u in units:
         region = u.name.split("_")[2]
-        for _ in range(trials):
-            y = sample(rng, region)
+        for y in edge_points(region) + [sample(rng, region) for _ in range(trials)]:
             try:
                 val = ev(u, y)
             except ZeroDivisionError:
@@ -199,6 +215,15 @@ def run(ck):
         b["real_code_double"] = {"f(y)": r["%s_value_%s" % (a, pr)]["f"], "f(-y)": r["%s_value_%s" % (a, nr)]["f"]}
     for n, b in bad_unit.items():
         b["real_code_double"] = real_double(ck, tracer, {n: b["y"]}).get(n)
+    for n, b in bad_path.items():
+        # the value and the AndDerivative variants of the same approximation on the real double code at that argument
+        b["y_double"] = float(F(b["y"]))
+        twin = n.replace("_value_", "_deriv_") if "_value_" in n else n.replace("_deriv_", "_value_")
+        try:
+            r = real_double(ck, tracer, {n: b["y_double"], twin: b["y_double"]})
+            b["real_code_double"] = {k: r.get(k) for k in (n, twin)}
+        except Exception as e:      # e.g. the real code does not terminate / crashes at this argument
+            b["real_code_double"] = "no answer from the real code at this argument: %r" % (e,)
     explained = set()
     if not res.ok:
         def search(fl):
@@ -255,7 +280,8 @@ def run(ck):
     ck.assumptions += [
         "T1: g++ instantiating the templates with verif::Sym performs the same scalar operations as with double; sym.hxx/glue.hxx/emit.py are correct",
         "concolic traces: one trace per sign region (and per Bergström–Boyce piece); checks/C26.py evaluates every recorded path condition "
-        "on seeded points of the region (a region split differently by the code is reported)",
+        "on seeded points of the region and at / next to (relative distance 2^-40) its ends, 0 and c0 included (a region split "
+        "differently by the code is reported)",
         "exact field semantics (the double literals are exact dyadic rationals, products of constants are exact); tan and cos are "
         "uninterpreted in the generic statements and Real.tan/Real.cos in the statements over the reals",
         "the claim L(f(y)) = y within the documented accuracy is NOT proved (coth): partial; the accuracy table is evidence only",
